@@ -44,6 +44,7 @@ const (
 	OpBlockForever
 	OpEvalSymlinks
 	OpReadlink
+	OpProcKill
 	OpPoll // a blocking channel operation found its channel not ready: park until another task made progress
 	opMax
 )
@@ -56,7 +57,7 @@ var opNames = [...]string{
 	OpNumCPU: "numcpu", OpNow: "now", OpSleep: "sleep", OpLookPath: "lookpath",
 	OpProcStart: "procstart", OpProcStdin: "procstdin", OpProcWait: "procwait",
 	OpNote: "note", OpBlockForever: "blockforever", OpEvalSymlinks: "evalsymlinks", OpReadlink: "readlink",
-	OpPoll: "chanwait",
+	OpPoll: "chanwait", OpProcKill: "prockill",
 }
 
 func (o Op) String() string {
